@@ -13,7 +13,8 @@
 (***************************************************************************)
 EXTENDS Ska, TLC, Json
 
-CONSTANTS MaxOps, OptSet, EmitReplay
+CONSTANTS MaxOps, OptSet, EmitReplay,
+          Focus    \* "all", or an operation kind: only histories containing that kind are explored
 
 VARIABLES hist
 vars == <<files, hist>>
@@ -38,6 +39,8 @@ OptsQuick == {[minf |-> 0, filter |-> "no-filter", ambigMissing |-> FALSE, ambig
               [minf |-> 0, filter |-> "no-const", ambigMissing |-> FALSE, ambigMask |-> FALSE, noGapOnly |-> FALSE],
               [minf |-> 0, filter |-> "no-const", ambigMissing |-> TRUE, ambigMask |-> FALSE, noGapOnly |-> FALSE],
               [minf |-> 0, filter |-> "no-filter", ambigMissing |-> TRUE, ambigMask |-> TRUE, noGapOnly |-> FALSE],
+              [minf |-> 0, filter |-> "no-ambig-or-const", ambigMissing |-> FALSE, ambigMask |-> TRUE, noGapOnly |-> FALSE],
+              [minf |-> 0, filter |-> "no-const", ambigMissing |-> FALSE, ambigMask |-> FALSE, noGapOnly |-> TRUE],
               [minf |-> 2, filter |-> "no-ambig", ambigMissing |-> FALSE, ambigMask |-> TRUE, noGapOnly |-> FALSE],
               [minf |-> 1, filter |-> "no-ambig-or-const", ambigMissing |-> TRUE, ambigMask |-> FALSE, noGapOnly |-> FALSE]}
 OptsMid == OptsQuick \cup
@@ -63,6 +66,11 @@ TableJson(f) == IF Present(f) THEN [names |-> Content(f).names, rows |-> SetToSe
                 ELSE [names |-> <<>>, rows |-> <<>>]
 Log(op, f) == hist' = Append(hist, [op |-> op, file |-> f, after |-> TableJson(f)'])
 
+\* with a focus, an operation of another kind is only taken first, or after the focus kind has occurred
+HasKind(kind) == \E i \in 1..Len(hist) : hist[i].op.do = kind
+May(kind) == Focus = "all" \/ kind = Focus \/ hist = <<>> \/ HasKind(Focus)
+\* (C13's focus: weeding proper, i.e. a weed file and no filter options)
+PlainOpts(o) == Focus # "weed" \/ (o.minf = 0 /\ o.filter = "no-filter" /\ ~o.ambigMask /\ ~o.ambigMissing)
 DoMerge == \E ins \in {<<"a", "b">>, <<"b", "a">>} :
               /\ ~Present("n")
               /\ Merge(ins, "n")
@@ -80,13 +88,17 @@ DoDelete == \E f \in FilesUsed : Present(f) /\
 DoWeed == \E f \in FilesUsed : Present(f) /\
             \E wi \in 0..Len(WeedPool), rev \in BOOLEAN, o \in Opts :
                /\ (wi = 0 => ~rev /\ WeedFilterActive(ThrOf(o, NSamples(Content(f)))))
+               /\ PlainOpts(o) /\ (Focus = "weed" => wi # 0)
                /\ LET kms == IF wi = 0 THEN {} ELSE WeedKms(WeedPool[wi], K, Content(f).rc) IN
                   WeedAct(f, f, wi # 0, kms, rev, ThrOf(o, NSamples(Content(f))))
                /\ hist' = Append(hist, [op |-> [do |-> "weed", weed |-> wi, reverse |-> rev, opts |-> o], file |-> f,
                                         after |-> [names |-> Logical(files'[f]).names,
                                                    rows |-> SetToSeq(Logical(files'[f]).rows)]])
 
-Next == Len(hist) < MaxOps /\ (DoMerge \/ DoDelete \/ DoWeed)
+Next == /\ Len(hist) < MaxOps
+        /\ \/ (May("merge") /\ DoMerge)
+           \/ (May("delete") /\ DoDelete)
+           \/ (May("weed") /\ DoWeed)
 Spec == Init /\ [][Next]_vars
 
 \* ---- invariants ------------------------------------------------------------
